@@ -53,10 +53,26 @@ func saveFileExtensionHandlers(handlers map[string]string) error {
 	if err != nil {
 		return fmt.Errorf("couldn't json-encode file extension handlers: %w", err)
 	}
+	// Write to a temporary file and rename, so that an interrupted write never leaves a truncated handlers file, which would stop octosql from starting.
 	simhook.CrashPoint("extensions.before_write")
-	if err := os.WriteFile(octosqlFileExtensionHandlersFile, data, 0644); err != nil {
+	tmpFile, err := os.CreateTemp(filepath.Dir(octosqlFileExtensionHandlersFile), "file_extension_handlers.json.tmp-")
+	if err != nil {
+		return fmt.Errorf("couldn't create temporary file extension handlers file: %w", err)
+	}
+	defer os.Remove(tmpFile.Name())
+	if _, err := tmpFile.Write(data); err != nil {
+		tmpFile.Close()
 		return fmt.Errorf("couldn't write file extension handlers to file: %w", err)
 	}
+	if err := tmpFile.Close(); err != nil {
+		return fmt.Errorf("couldn't write file extension handlers to file: %w", err)
+	}
+	if err := os.Chmod(tmpFile.Name(), 0644); err != nil {
+		return fmt.Errorf("couldn't set file extension handlers file permissions: %w", err)
+	}
 	simhook.CrashPoint("extensions.after_write")
+	if err := os.Rename(tmpFile.Name(), octosqlFileExtensionHandlersFile); err != nil {
+		return fmt.Errorf("couldn't move file extension handlers file into place: %w", err)
+	}
 	return nil
 }
